@@ -235,6 +235,11 @@ func judgeC18Inner(rec *stats.Rec, c c18Case) (string, string) {
 	return "", ""
 }
 
+// extremeInstants (Unix seconds): 0001-01-01, 1000, 1500, either side of 1677-09-21 and of 2262-04-11 (the
+// range of a 64-bit nanosecond count), 1900, 2300, 2601, 5000, 9999-12-31.
+var extremeInstants = []int64{-62135596800, -30610224000, -14831769600, -9223372037, -9223372036, -9223459200, -9223286400, -2208988800, 9223372036, 9223372037, 9223286400, 9223459200,
+	10413792000, 19912435200, 95617584000, 253402300799}
+
 // ipLikeCNs: common names that are, or only resemble, IP address literals. Which of them the
 // model calls an address is decided by cnIsIP (dotted quad by own arithmetic, otherwise an IPv6
 // literal as net.ParseIP reads it - no zone, no brackets, no port).
@@ -316,6 +321,15 @@ func TestC18(t *testing.T) {
 				}
 			}
 		}
+		// instants far from today: a few centuries either way (where 64-bit nanosecond counts wrap), the first and
+		// last representable years, and the zero time
+		for xi, ux := range extremeInstants {
+			c := c18Case{What: "func", Domain: "example." + k, Unix: ux, Zone: zones[(i+xi)%len(zones)]}
+			rec.Eval()
+			if sig, msg := judgeC18(rec, c); msg != "" {
+				report(sig, msg, c)
+			}
+		}
 		c := c18Case{What: "inmap", Domain: strings.ToUpper(k[:1]) + k[1:]}
 		rec.Eval()
 		if sig, msg := judgeC18(rec, c); msg != "" {
@@ -377,6 +391,8 @@ func TestC18(t *testing.T) {
 				b, _ = dayStart(e.Removal)
 			}
 			unix = b + int64(rapid.IntRange(-2, 2).Draw(rt, "off"))
+		} else if rapid.IntRange(0, 5).Draw(rt, "extreme") == 0 {
+			unix = rapid.OneOf(rapid.SampledFrom(extremeInstants), rapid.Int64Range(-62135596800, 253402300799)).Draw(rt, "farunix")
 		} else {
 			unix = rapid.Int64Range(315532800, 2208988800).Draw(rt, "unix")
 		}
@@ -491,8 +507,13 @@ func TestC18(t *testing.T) {
 		} else if rapid.Bool().Draw(rt, "anydate") {
 			nb = time.Unix(rapid.Int64Range(946684800, 2208988800).Draw(rt, "unix"), 0)
 		}
+		if rapid.IntRange(0, 9).Draw(rt, "fardate") == 0 {
+			nb = time.Unix(rapid.SampledFrom(extremeInstants[6:]).Draw(rt, "far"), 0)
+		}
 		if nb.Year() >= 1951 && nb.Year() < 2049 {
 			gen.Redate(v, pc, nb, gen.TimeForm(rapid.IntRange(0, 3).Draw(rt, "form")))
+		} else if nb.Year() >= 1 && nb.Year() <= 9990 {
+			gen.Redate(v, pc, nb, gen.GenZ)
 		}
 		c := c18Case{What: "cert", DER: v.DER(), Base: o.Name}
 		rec.Eval()
